@@ -35,13 +35,13 @@ SortAsc(S) == SetToSortSeq(S, <)
 
 W0 == [fr |-> <<>>, ev |-> {}, hk |-> {}]
 
+(* the n largest elements of S *)
 NewestK(S, n) == IF Cardinality(S) <= n THEN S
-                 ELSE {i \in S : Cardinality({j \in S : j > i}) < n}
+                 ELSE LET s == SortAsc(S) IN {s[j] : j \in (Len(s) - n + 1)..Len(s)}
 
+(* frames outside the newest N of a (ctx, topic) for which a head:N frame was appended *)
 EvictableNow(fr, hk) ==
-  {i \in DOMAIN fr :
-     \E h \in hk : /\ h[1] = fr[i].ctx /\ h[2] = fr[i].topic
-                   /\ i \notin NewestK({j \in DOMAIN fr : fr[j].ctx = h[1] /\ fr[j].topic = h[2]}, h[3])}
+  UNION {LET T == {j \in DOMAIN fr : fr[j].ctx = h[1] /\ fr[j].topic = h[2]} IN T \ NewestK(T, h[3]) : h \in hk}
 
 ApplyOp(w, o) ==
   LET fr1 == CASE o.op \in {"append", "import"} -> Put(w.fr, o.id, o.f)
